@@ -220,6 +220,51 @@ Qed.
 End Shares.
 
 (* ------------------------------------------------------------------------------------------ *)
+(* Sub-families of an admissible id family are admissible                                      *)
+
+Section SubIds.
+Variables (F : fieldType) (J : eqType) (x : J -> F).
+
+Lemma uniq_map_inj (s : seq J) : uniq (map x s) -> {in s &, injective x}.
+Proof.
+move=> U i j iin jin e.
+have hi : (index i s < size (map x s))%N by rewrite size_map index_mem.
+have hj : (index j s < size (map x s))%N by rewrite size_map index_mem.
+have := nth_uniq (x i) hi hj U.
+rewrite !(nth_map i) -?index_mem ?index_mem // !nth_index // e eqxx => /esym/eqP ii.
+by rewrite -(nth_index i iin) ii nth_index.
+Qed.
+
+Lemma sub_ids_distinct (all_js js : seq J) :
+  ids_distinct x all_js -> uniq js -> {subset js <= all_js} -> ids_distinct x js.
+Proof.
+move=> U Ujs sub; rewrite /ids_distinct map_inj_in_uniq // => i j iin jin.
+by apply: (uniq_map_inj U); apply: sub.
+Qed.
+
+Lemma sub_ids_nonzero (all_js js : seq J) :
+  ids_nonzero x all_js -> {subset js <= all_js} -> ids_nonzero x js.
+Proof. by move=> /allP nz sub; apply/allP => j /sub /nz. Qed.
+
+End SubIds.
+
+(* re-indexing: shares listed through f : K -> J *)
+Lemma recover_map (F : fieldType) (J K : eqType) (x : J -> F) (V : lmodType F) (f : K -> J)
+    (ks : seq K) (y : J -> V) :
+  recover x (map f ks) y = recover (x \o f) ks (y \o f).
+Proof.
+rewrite /recover big_map; apply: eq_bigr => k _.
+by rewrite /lam big_map.
+Qed.
+
+Lemma recover_eq (F : fieldType) (J : eqType) (x x' : J -> F) (V : lmodType F) (js : seq J)
+    (y y' : J -> V) : x =1 x' -> y =1 y' -> recover x js y = recover x' js y'.
+Proof.
+move=> ex ey; rewrite /recover; apply: eq_bigr => j _; rewrite ey; congr (_ *: _).
+by rewrite /lam; apply: eq_big => k; rewrite !ex.
+Qed.
+
+(* ------------------------------------------------------------------------------------------ *)
 (* Share ids 1..n (cluster: share index = node index + 1)                                      *)
 
 Section NatIds.
@@ -262,36 +307,16 @@ move=> ch; split.
 by apply/allP => i; rewrite mem_iota add0n /= => li; apply: (idn_neq0 ch).
 Qed.
 
+(* every duplicate-free sub-list of 0..n-1 is an admissible share set *)
+Lemma nat_ids_ok n : char_above n ->
+  forall js : seq nat, uniq js -> {subset js <= iota 0 n} ->
+  ids_distinct idn js /\ ids_nonzero idn js.
+Proof.
+move=> ch js U sub; have [D N] := iota_ids_ok ch.
+by split; [apply: sub_ids_distinct D U sub | apply: sub_ids_nonzero N sub].
+Qed.
+
 End NatIds.
-
-(* ------------------------------------------------------------------------------------------ *)
-(* Sub-families of an admissible id family are admissible                                      *)
-
-Section SubIds.
-Variables (F : fieldType) (J : eqType) (x : J -> F).
-
-Lemma uniq_map_inj (s : seq J) : uniq (map x s) -> {in s &, injective x}.
-Proof.
-move=> U i j iin jin e.
-have hi : (index i s < size (map x s))%N by rewrite size_map index_mem.
-have hj : (index j s < size (map x s))%N by rewrite size_map index_mem.
-have := nth_uniq (x i) hi hj U.
-rewrite !(nth_map i) -?index_mem ?index_mem // !nth_index // e eqxx => /esym/eqP ii.
-by rewrite -(nth_index i iin) ii nth_index.
-Qed.
-
-Lemma sub_ids_distinct (all_js js : seq J) :
-  ids_distinct x all_js -> uniq js -> {subset js <= all_js} -> ids_distinct x js.
-Proof.
-move=> U Ujs sub; rewrite /ids_distinct map_inj_in_uniq // => i j iin jin.
-by apply: (uniq_map_inj U); apply: sub.
-Qed.
-
-Lemma sub_ids_nonzero (all_js js : seq J) :
-  ids_nonzero x all_js -> {subset js <= all_js} -> ids_nonzero x js.
-Proof. by move=> /allP nz sub; apply/allP => j /sub /nz. Qed.
-
-End SubIds.
 
 (* ------------------------------------------------------------------------------------------ *)
 (* cluster.verifySharesReconstruct (cluster/lock.go): shares[0..n-1] carry ids x 0 .. x (n-1)
@@ -485,3 +510,16 @@ by case=> ->; rewrite ?scale0r.
 Qed.
 
 End BLS.
+
+(* the hypotheses of Section BLS are satisfiable: F itself, e = multiplication, g1 = 1 *)
+Lemma bls_model_exists (F : fieldType) :
+  exists (G1 G2 GT : lmodType F) (e : G1 -> G2 -> GT) (g1 : G1),
+  (forall a u v, e (a *: u) v = a *: e u v) /\ (forall a u v, e u (a *: v) = a *: e u v) /\
+  (forall u v w, e u (v - w) = e u v - e u w) /\ (forall v, e g1 v = 0 -> v = 0) /\ g1 != 0.
+Proof.
+exists (GRing.regular_lmodType F), (GRing.regular_lmodType F), (GRing.regular_lmodType F).
+exists (fun u v : F^o => u * v : F^o), (1 : F^o); split; first by move=> a u v; rewrite -mulrA.
+split; first by move=> a u v; rewrite /GRing.scale /= mulrCA.
+split; first by move=> u v w; rewrite mulrBr.
+by split; [move=> v; rewrite mul1r | rewrite oner_eq0].
+Qed.
